@@ -173,8 +173,8 @@ def check(prog, res, tier):
         zfi = prog.func('key.get_zone_master_key')
         ob = Ob('C14.d', 'key components are combined with XOR only', func_where(zfi), 'int(p1, 16) ^ int(key_part, 16)',
                 rule='C14.d.xor')
-        ops = [type(n.op).__name__ for n in ast.walk(zfi.node) if isinstance(n, ast.BinOp)
-               and not isinstance(n.op, (ast.Mult, ast.Mod))]
+        ops = [type(n.op).__name__ for n in ast.walk(zfi.node) if isinstance(n, (ast.BinOp, ast.AugAssign))
+               and not isinstance(n.op, (ast.Mult, ast.Mod, ast.Add))]
         if ops and all(o == 'BitXor' for o in ops):
             ob.verdict, ob.detail = PROVED, f'{len(ops)} combining operator(s), all XOR'
         elif not ops:
